@@ -109,8 +109,15 @@ namespace hgraph
             throw std::logic_error("TSOutputView::bind_forwarding_target requires a forwarding output view");
         }
         const TSOutputHandle previous = forwarding_target();
+        // A re-point is a tick for consumers only when there is something to
+        // sample or to lose: moving between two targets that both hold no
+        // value (e.g. from a nested child's not-yet-resolved endpoint to the
+        // output it resolves to) changes nothing a consumer can read.
+        const bool previous_had_value =
+            evaluation_time_ != MIN_DT && previous.bound() && previous.view(evaluation_time_).valid();
         detail::bind_target_link(data_, source);
-        if (evaluation_time_ != MIN_DT && previous.bound() && !previous.same_as(forwarding_target()))
+        if (evaluation_time_ != MIN_DT && previous.bound() && !previous.same_as(forwarding_target()) &&
+            (previous_had_value || source.valid()))
         {
             detail::mutable_target_link_storage(data_)->record_target_modified(evaluation_time_);
         }
